@@ -249,7 +249,9 @@ CHECKS = {
         category="proof",
         text="Closed Coq theorems over an executable model of WSGIApp's handlers: create/read/replace/delete/duplicate/unknown refine a "
              "map from identifier to object on the submodel routes; the invariant 'filed under its own id' holds after every history "
-             "without id-changing PUT bodies (refuted otherwise: open known finding); paging follows the cursor exactly once for every "
+             "of every request (C10_own_id; a PUT whose body carries another id re-keys the object: old id 404, new id 200 with the "
+             "merged object, 409 and nothing changed when the id is taken: C10_rekeyed_then_read, C10_rekey_conflict - the SDK defect "
+             "behind the former refutation was repaired); paging follows the cursor exactly once for every "
              "limit > 0, also on filtered listings (filter before slice: C10_filtered_*); every mutating handler commits (finite check over the call table translated from http.py). Route table, "
              "except clauses, statuses and commit() calls are regenerated from http.py on every run; the hand-written handler model is "
              "tied by differential execution of random request histories over in-memory and local-file stores; oracle = a Python "
@@ -257,13 +259,14 @@ CHECKS = {
         note="Proof on the handler model, partial: werkzeug routing/converters/Accept negotiation/multipart and JSON/XML parsing are not "
              "modelled (bodies enter as abstract values); request-level theorems are stated on the submodel routes, the others are "
              "covered by the invariant and the correspondence. Trusted: kernel + vm_compute, tools/py2coq/httproutes.py (self-checked "
-             "against url_map), harness/oracle, Files.v. Seven open known findings (id-changing PUT, list-index paths, core level for XML, ...).",
+             "against url_map), harness/oracle, Files.v. Open known findings: list-index paths, POST into a list, core level for XML, shared attachment.",
         technique="Coq proof (case analysis over generated endpoints, induction over histories) + translation tie + correspondence + reference-dict oracle",
         design_ref="DESIGN.md 6.C10, 10.7"),
     "C11": dict(
         category="proof",
-        text="Closed Coq theorems: under the own-id invariant no request yields 5xx except 501 on declared-unimplemented routes "
-             "(refuted without the invariant: DELETE after an id-changing PUT, open known finding); every 4xx except 406 carries the "
+        text="Closed Coq theorems: after every history no request yields 5xx except 501 on declared-unimplemented routes "
+             "(C11_no_5xx, full statement since the id-changing PUT was repaired; the own-id invariant it rests on is proved for "
+             "every history); every 4xx except 406 carries the "
              "result structure with success=false; every 4xx/501 leaves store and file container unchanged (both unconditional). Proved "
              "by walking every generated endpoint with the except tables translated from http.py on every run; tied by a 26k-request "
              "route x method x malformed-input matrix and random histories through werkzeug's test client, with a snapshot oracle.",
